@@ -279,6 +279,11 @@ func (p *Path) abort(status, msg string) {
 }
 
 func (p *Path) unsupported(format string, a ...any) {
+	if os.Getenv("UNSUPDBG") != "" && p.sched != nil && p.sched.cur != nil {
+		for fr := p.sched.cur.curFr; fr != nil; fr = fr.caller {
+			fmt.Fprintln(os.Stderr, "  at", fr.fn.String())
+		}
+	}
 	p.abort("unsupported", fmt.Sprintf(format, a...))
 }
 
